@@ -11,6 +11,6 @@ CONSTANTS
   DSeqs = {1, 11, 111}
   GSeqs = {1, 11, 111}
   OSeqs = {1, 11, 111}
-  MaxGroupsD = 8
+  MaxGroupsD = 10
 INIT ExportInit
 NEXT ExportNext
